@@ -10,6 +10,7 @@ CONSTANTS
   FaultSites = {}
   MaxCtx = 0
   MaxDepth = 0
+  ChainToggleChains = {}
   Variant = "head"
 INIT Init
 NEXT Stop
